@@ -1358,3 +1358,123 @@ Definition g_gcsa_build_gcsa_event {DV : Type} {TZNAME : Type} {EVENT : Type} {P
 (* calgebra/gcsa.py: _build_result_event *)
 Definition g_gcsa_build_result_event {DV : Type} {EVENT : Type} {PW : Type} {SUM : Type} {ODESC : Type} {REMS : Type} {CID : Type} {CSUM : Type} {ID : Type} {RID : Type} {AEV : Type} (pw_event : PW -> EVENT) (pw_start_dt : PW -> DV) (pw_end_dt : PW -> DV) (pw_is_all_day : PW -> bool) (ev_summary : EVENT -> SUM) (ev_description : EVENT -> ODESC) (ev_reminders : EVENT -> REMS) (ev_calendar_id : EVENT -> CID) (ev_calendar_summary : EVENT -> CSUM) (pw_start : PW -> Z) (pw_end : PW -> Z) (mk_result_event : ID -> CID -> CSUM -> SUM -> ODESC -> option RID -> bool -> REMS -> Z -> Z -> AEV) (prepared : PW) (event_id : ID) : AEV :=
   (mk_result_event event_id (ev_calendar_id (pw_event prepared)) (ev_calendar_summary (pw_event prepared)) (ev_summary (pw_event prepared)) (ev_description (pw_event prepared)) None (pw_is_all_day prepared) (ev_reminders (pw_event prepared)) (pw_start prepared) (pw_end prepared)).
+
+(* calgebra/gcsa.py: Calendar._add_recurring *)
+Definition g_gcsa_add_recurring {TZ : Type} {TZNAME : Type} {DV : Type} {TIME : Type} {TD : Type} {EXD : Type} {RR : Type} {PART : Type} {PAT : Type} {MD : Type} {SUM : Type} {ODESC : Type} {REMV : Type} {GREMS : Type} {GEV : Type} {CREATED : Type} {ID : Type} {RID : Type} {CID : Type} {CSUM : Type} {AEV : Type} {WRS : Type} (tz_utc : TZ) (dv_fromtimestamp : Z -> TZ -> DV) (dv_time : DV -> TIME) (time_min : TIME) (time_neb : TIME -> TIME -> bool) (td_of_seconds : Z -> TD) (td_of_days : Z -> TD) (td_of_hours : Z -> TD) (td_days : TD -> Z) (td_sub : TD -> TD -> TD) (td_gtb : TD -> TD -> bool) (dv_date : DV -> DV) (dv_now : TZ -> DV) (dv_midnight : DV -> DV) (dv_add : DV -> TD -> DV) (dv_timestamp : DV -> Z) (dt_strftime_exdate : DV -> EXD) (parse_exdates_from_rrule : RR -> RR * list EXD) (exd_eqb : EXD -> EXD -> bool) (mk_exdate_part : list EXD -> PART) (rr_snoc : RR -> PART -> RR) (md_merge : PAT -> MD -> MD) (pat_rrule_line : PAT -> RR) (py_sorted : list Z -> list Z) (md_has_start : MD -> bool) (md_start : MD -> Z) (tz_name_eqb : TZ -> TZ -> bool) (tz_name : TZ -> TZNAME) (md_summary : MD -> SUM) (md_description : MD -> ODESC) (md_reminders : MD -> REMV) (remv_is_list : REMV -> bool) (remv_all_reminders : REMV -> bool) (convert_reminders_to_gcsa : REMV -> GREMS) (wrs_bad_reminders : WRS) (wrs_no_id : WRS) (wrs_success : AEV -> WRS) (mk_gcsa_rec_event : SUM -> DV -> DV -> option TZNAME -> ODESC -> option GREMS -> RR -> GEV) (add_event : GEV -> CREATED) (created_id : CREATED -> option ID) (mk_result_event : option ID -> CID -> CSUM -> SUM -> ODESC -> option RID -> bool -> option REMV -> Z -> Z -> AEV) (pat_exdates : PAT -> list Z) (pat_anchor_timestamp : PAT -> option Z) (pat_zone : PAT -> TZ) (pat_start_seconds : PAT -> Z) (pat_duration_seconds : PAT -> Z) (self_calendar_id : CID) (self_calendar_summary : CSUM) (self_calendar_timezone : option TZ) (pattern : PAT) (metadata : MD) : WRS :=
+  let merged_metadata := (md_merge pattern metadata) in
+  let rrule_str := (pat_rrule_line pattern) in
+  if (nonempty (pat_exdates pattern)) then
+    iter_for
+      (fun rrule_str exdate_ts =>
+        let exdate_str := (g_gcsa_format_exdate tz_utc dv_fromtimestamp dt_strftime_exdate exdate_ts) in
+        let rrule_str := (g_gcsa_add_exdate_to_rrule parse_exdates_from_rrule exd_eqb mk_exdate_part rr_snoc rrule_str exdate_str) in
+        (SCont rrule_str))
+      (fun rrule_str =>
+        let series_start_ts :=
+          if (md_has_start merged_metadata) then
+            let series_start_ts := (md_start merged_metadata) in
+            series_start_ts
+          else
+            if (negb (is_none (pat_anchor_timestamp pattern))) then
+              let series_start_ts := (ozd (pat_anchor_timestamp pattern)) in
+              series_start_ts
+            else
+              let now_in_tz := (dv_now (pat_zone pattern)) in
+              let today_midnight := (dv_midnight now_in_tz) in
+              let start_delta := (td_of_seconds (pat_start_seconds pattern)) in
+              let series_start_dt_tz := (dv_add today_midnight start_delta) in
+              let series_start_ts := (dv_timestamp series_start_dt_tz) in
+              series_start_ts in
+        let series_end_ts := (dv_timestamp (dv_add (dv_fromtimestamp series_start_ts (pat_zone pattern)) (td_of_seconds (pat_duration_seconds pattern)))) in
+        let is_all_day := (((pat_duration_seconds pattern) =? 86400) && (tz_name_eqb (pat_zone pattern) (match self_calendar_timezone with Some v_ => v_ | None => tz_utc end)) && (g_gcsa_infer_is_all_day tz_utc dv_fromtimestamp dv_time time_min time_neb td_of_seconds td_of_days td_of_hours td_days td_sub td_gtb series_start_ts series_end_ts self_calendar_timezone)) in
+        let '(series_start_dt, series_end_dt) :=
+          if is_all_day then
+            let '(series_start_dt, series_end_dt) := (g_gcsa_convert_timestamps tz_utc dv_fromtimestamp dv_date series_start_ts series_end_ts true self_calendar_timezone) in
+            (series_start_dt, series_end_dt)
+          else
+            let series_start_dt := (dv_fromtimestamp series_start_ts (pat_zone pattern)) in
+            let series_end_dt := (dv_fromtimestamp series_end_ts (pat_zone pattern)) in
+            (series_start_dt, series_end_dt) in
+        let summary := (md_summary merged_metadata) in
+        let description := (md_description merged_metadata) in
+        let reminders := (md_reminders merged_metadata) in
+        if (remv_is_list reminders) then
+          if (negb (remv_all_reminders reminders)) then
+            wrs_bad_reminders
+          else
+            let gcsa_reminders := (Some (convert_reminders_to_gcsa reminders)) in
+            let validated_reminders := (Some reminders) in
+            let event_timezone := (if (negb is_all_day) then (Some (tz_name (pat_zone pattern))) else None) in
+            let gcsa_event := (mk_gcsa_rec_event summary series_start_dt series_end_dt event_timezone description gcsa_reminders rrule_str) in
+            let created_event := (add_event gcsa_event) in
+            if (negb (negb (is_none (created_id created_event)))) then
+              wrs_no_id
+            else
+              let result_event := (mk_result_event (created_id created_event) self_calendar_id self_calendar_summary summary description None is_all_day validated_reminders series_start_ts series_end_ts) in
+              (wrs_success result_event)
+        else
+          let gcsa_reminders := None in
+          let validated_reminders := None in
+          let event_timezone := (if (negb is_all_day) then (Some (tz_name (pat_zone pattern))) else None) in
+          let gcsa_event := (mk_gcsa_rec_event summary series_start_dt series_end_dt event_timezone description gcsa_reminders rrule_str) in
+          let created_event := (add_event gcsa_event) in
+          if (negb (negb (is_none (created_id created_event)))) then
+            wrs_no_id
+          else
+            let result_event := (mk_result_event (created_id created_event) self_calendar_id self_calendar_summary summary description None is_all_day validated_reminders series_start_ts series_end_ts) in
+            (wrs_success result_event))
+      rrule_str (py_sorted (pat_exdates pattern))
+  else
+    let series_start_ts :=
+      if (md_has_start merged_metadata) then
+        let series_start_ts := (md_start merged_metadata) in
+        series_start_ts
+      else
+        if (negb (is_none (pat_anchor_timestamp pattern))) then
+          let series_start_ts := (ozd (pat_anchor_timestamp pattern)) in
+          series_start_ts
+        else
+          let now_in_tz := (dv_now (pat_zone pattern)) in
+          let today_midnight := (dv_midnight now_in_tz) in
+          let start_delta := (td_of_seconds (pat_start_seconds pattern)) in
+          let series_start_dt_tz := (dv_add today_midnight start_delta) in
+          let series_start_ts := (dv_timestamp series_start_dt_tz) in
+          series_start_ts in
+    let series_end_ts := (dv_timestamp (dv_add (dv_fromtimestamp series_start_ts (pat_zone pattern)) (td_of_seconds (pat_duration_seconds pattern)))) in
+    let is_all_day := (((pat_duration_seconds pattern) =? 86400) && (tz_name_eqb (pat_zone pattern) (match self_calendar_timezone with Some v_ => v_ | None => tz_utc end)) && (g_gcsa_infer_is_all_day tz_utc dv_fromtimestamp dv_time time_min time_neb td_of_seconds td_of_days td_of_hours td_days td_sub td_gtb series_start_ts series_end_ts self_calendar_timezone)) in
+    let '(series_start_dt, series_end_dt) :=
+      if is_all_day then
+        let '(series_start_dt, series_end_dt) := (g_gcsa_convert_timestamps tz_utc dv_fromtimestamp dv_date series_start_ts series_end_ts true self_calendar_timezone) in
+        (series_start_dt, series_end_dt)
+      else
+        let series_start_dt := (dv_fromtimestamp series_start_ts (pat_zone pattern)) in
+        let series_end_dt := (dv_fromtimestamp series_end_ts (pat_zone pattern)) in
+        (series_start_dt, series_end_dt) in
+    let summary := (md_summary merged_metadata) in
+    let description := (md_description merged_metadata) in
+    let reminders := (md_reminders merged_metadata) in
+    if (remv_is_list reminders) then
+      if (negb (remv_all_reminders reminders)) then
+        wrs_bad_reminders
+      else
+        let gcsa_reminders := (Some (convert_reminders_to_gcsa reminders)) in
+        let validated_reminders := (Some reminders) in
+        let event_timezone := (if (negb is_all_day) then (Some (tz_name (pat_zone pattern))) else None) in
+        let gcsa_event := (mk_gcsa_rec_event summary series_start_dt series_end_dt event_timezone description gcsa_reminders rrule_str) in
+        let created_event := (add_event gcsa_event) in
+        if (negb (negb (is_none (created_id created_event)))) then
+          wrs_no_id
+        else
+          let result_event := (mk_result_event (created_id created_event) self_calendar_id self_calendar_summary summary description None is_all_day validated_reminders series_start_ts series_end_ts) in
+          (wrs_success result_event)
+    else
+      let gcsa_reminders := None in
+      let validated_reminders := None in
+      let event_timezone := (if (negb is_all_day) then (Some (tz_name (pat_zone pattern))) else None) in
+      let gcsa_event := (mk_gcsa_rec_event summary series_start_dt series_end_dt event_timezone description gcsa_reminders rrule_str) in
+      let created_event := (add_event gcsa_event) in
+      if (negb (negb (is_none (created_id created_event)))) then
+        wrs_no_id
+      else
+        let result_event := (mk_result_event (created_id created_event) self_calendar_id self_calendar_summary summary description None is_all_day validated_reminders series_start_ts series_end_ts) in
+        (wrs_success result_event).
